@@ -38,15 +38,17 @@ Proof. exact roles_history_independent. Qed.
 Print Assumptions C10_history_independent.
 
 (* get_value: whenever it returns a number, that number is the value of the definition evaluated recursively with
-   states at their initial values and the free variable at zero (ValueSpec), on definitions that mention no derivative.
-   Full statement ("including definitions that mention a derivative") is false of the code: finding F9. *)
-Theorem C10_get_value_sound_partial : forall pool rhs fuel s v x,
+   states at their initial values and the free variable at zero, a derivative atom d y/d t standing for the value of the
+   right-hand side of the ODE of y (ValueSpec / RhsSpec / DerivSpec, Proofs/C10P.v) -- the full statement of the property,
+   "including definitions that mention a derivative" (finding F9 was repaired in /repo; the model follows the repair). *)
+Theorem C10_get_value_sound : forall pool rhs fuel s v x,
   get_value pool rhs fuel s v = VOk x -> ValueSpec pool rhs s v x.
 Proof. exact get_value_sound. Qed.
-Print Assumptions C10_get_value_sound_partial.
+Print Assumptions C10_get_value_sound.
 
-Theorem C10_get_value_derivative_refuted :
-  exists pool rhs s v fuel, get_value pool rhs fuel s v = VErr VValue /\
+(* non-vacuity: a definition that mentions a derivative is evaluated (d x/d t = 1, y = d x/d t: get_value y = 1) *)
+Theorem C10_get_value_derivative_example :
+  exists pool rhs s v fuel, get_value pool rhs fuel s v = VOk 1%Q /\
     exists e x, dget Nat.eqb (vdef s) v = Some e /\ nth_error rhs e = Some x /\ has_deriv x = true.
-Proof. exact get_value_derivative_refuted. Qed.
-Print Assumptions C10_get_value_derivative_refuted.
+Proof. exact get_value_derivative_example. Qed.
+Print Assumptions C10_get_value_derivative_example.
